@@ -1,6 +1,6 @@
 """C12 — BinaryTrie is a map with a canonical, history-independent root (DESIGN §5 C12)."""
 from ..binsys import BinSys
-from ..engine import explore, unjson, HarnessError
+from ..engine import explore, replay_doc
 from ..report import Report
 
 
@@ -24,29 +24,10 @@ def run(tier, seed):
 
 
 def replay_bin(doc):
-    outcomes = []
-    for _ in range(2):
-        kw = dict(doc["system"]["kwargs"])
-        for k in ("values", "props", "forms"):
-            kw[k] = tuple(kw[k])
-        sysm = BinSys(**kw)
-        hist = [unjson(e) for e in doc["history"]]
-        snap, model = sysm.initial()[hist[0][1]]
-        found = []
-        for ev in hist[1:]:
-            found += [v["check"] for v in sysm.state_check(snap, model)]
-            st = sysm.step(snap, model, ev)
-            found += [v["check"] for v in st.viols]
-            if st.snap is None:
-                break
-            snap, model = st.snap, st.model
-        else:
-            found += [v["check"] for v in sysm.state_check(snap, model)]
-        outcomes.append(found)
-    if outcomes[0] != outcomes[1]:
-        raise HarnessError("replay is not deterministic")
-    print("replayed history; failing checks:", outcomes[0])
-    return doc["check"] in outcomes[0]
+    kw = dict(doc["system"]["kwargs"])
+    for k in ("values", "props", "forms"):
+        kw[k] = tuple(kw[k])
+    return replay_doc(lambda: BinSys(**kw), doc)
 
 
 replay = replay_bin
